@@ -200,6 +200,34 @@ static void op_edm(int argc, char **argv) {
 	fputc('\n', OUT);
 }
 
+/* edtab <basic|combs|combd|lwnaf> <P> : the precomputation table ed_mul_pre_<variant> builds for P, every entry printed like a
+ * result (affine value + flags), separated by ';' */
+static void op_edtab(int argc, char **argv) {
+	if (argc < 3) { fprintf(OUT, "bad-args\n"); return; }
+	const char *v = argv[1];
+	int caught = 0, len = -1;
+	ed_t p; bn_t n;
+	ed_null(p); ed_new(p); bn_null(n); bn_new(n);
+	ed_curve_get_ord(n);
+	if (!strcmp(v, "basic")) len = bn_bits(n);
+	else if (!strcmp(v, "combs")) len = RLC_ED_TABLE_COMBS;
+	else if (!strcmp(v, "combd")) len = RLC_ED_TABLE_COMBD;
+	else if (!strcmp(v, "lwnaf")) len = RLC_ED_TABLE_LWNAF;
+	if (len < 0 || len > TABN) { fprintf(OUT, "unknown-edtab %s\n", v); return; }
+	ed_tok(p, argv[2]);
+	memset(tab, 0, sizeof(tab));
+	for (int i = 0; i < TABN; i++) { ed_null(tab[i]); ed_new(tab[i]); }
+	RLC_TRY {
+		if (!strcmp(v, "basic")) ed_mul_pre_basic(tab, p);
+		else if (!strcmp(v, "combs")) ed_mul_pre_combs(tab, p);
+		else if (!strcmp(v, "combd")) ed_mul_pre_combd(tab, p);
+		else ed_mul_pre_lwnaf(tab, p);
+	} RLC_CATCH_ANY { caught = 1; }
+	if (take_err() || caught) { fprintf(OUT, "err\n"); return; }
+	for (int i = 0; i < len; i++) { if (i) fputc(';', OUT); ed_out(tab[i], sys_t()); }
+	fputc('\n', OUT);
+}
+
 /* eds <variant> <P> <k> <Q> <m> : k*P + m*Q ; variant gen uses the generator for P */
 static void op_eds(int argc, char **argv) {
 	if (argc < 6) { fprintf(OUT, "bad-args\n"); return; }
@@ -324,7 +352,7 @@ static void op_ed_gen(int argc, char **argv) {
 }
 
 const op_t ops_ed[] = {
-	{"ed_param", op_ed_param}, {"ed2", op_ed2}, {"ed1", op_ed1}, {"edm", op_edm}, {"eds", op_eds}, {"edl", op_edl}, {"edla", op_edl},
+	{"ed_param", op_ed_param}, {"ed2", op_ed2}, {"ed1", op_ed1}, {"edm", op_edm}, {"edtab", op_edtab}, {"eds", op_eds}, {"edl", op_edl}, {"edla", op_edl},
 	{"ed_write_bin", op_ed_write_bin}, {"ed_read_bin", op_ed_read_bin}, {"ed_pck", op_ed_pck}, {"ed_upk", op_ed_upk},
 	{"ed_map", op_ed_map}, {"ed_map_dst", op_ed_map}, {"ed_gen", op_ed_gen},
 	{NULL, NULL}
